@@ -167,11 +167,28 @@ def run(ctx):
     ctx.ob("R3.run-lengths", CIG, "_aggregate_consecutive", "runs start where operations[:-1] != operations[1:]",
            "np.where(operations[:-1] != operations[1:])[0]" in at and "op_start_indices += 1" in at
            and "np.diff(np.append(op_start_indices, len(operations)))" in at, "run lengths must sum to the number of columns", ag.lineno)
-    for q, a, b in (("_cigar_from_op_tuples", "str(count) + CigarOp(op).to_cigar_symbol()", None),
-                    ("_op_tuples_from_cigar", "CigarOp.from_cigar_symbol(char)", "char.isdigit()")):
-        f = s.func(q)
-        ctx.ob("R3.string-form", CIG, q, a, a in ast.unparse(f) and (b is None or b in ast.unparse(f)),
-               "a CIGAR string is a sequence of <count><symbol>", f.lineno, nontrivial=False)
+    # writer: each item is <count> immediately followed by <symbol> (concatenation or f-string, any loop form)
+    f = s.func("_cigar_from_op_tuples")
+    okw = False
+    conw = "count + symbol"
+    for n_ in ast.walk(f):
+        parts = None
+        if isinstance(n_, ast.BinOp) and isinstance(n_.op, ast.Add):
+            parts = [n_.left, n_.right]
+        elif isinstance(n_, ast.JoinedStr):
+            parts = [v.value if isinstance(v, ast.FormattedValue) else v for v in n_.values]
+        if parts and len(parts) == 2:
+            a_, b_ = parts
+            is_count = (isinstance(a_, ast.Call) and call_name(a_) == "str" and same_expr(a_.args[0], "count")) or same_expr(a_, "count")
+            is_sym = same_expr(b_, "CigarOp(op).to_cigar_symbol()")
+            if is_count and is_sym:
+                okw = True
+                conw = ast.unparse(n_)
+    ctx.ob("R3.string-form", CIG, "_cigar_from_op_tuples", conw, okw, "a CIGAR string is a sequence of <count><symbol>", f.lineno, nontrivial=False)
+    f = s.func("_op_tuples_from_cigar")
+    ctx.ob("R3.string-form", CIG, "_op_tuples_from_cigar", "CigarOp.from_cigar_symbol(char)",
+           contains_expr(f, "CigarOp.from_cigar_symbol(char)") and contains_expr(f, "char.isdigit()"),
+           "a CIGAR string is a sequence of <count><symbol>", f.lineno, nontrivial=False)
     # ---------------- R4 gap character --------------------------------------------------
     al = ctx.src(ALN)
     gs = al.func("Alignment._gapped_str")
@@ -181,17 +198,50 @@ def run(ctx):
     fcv = ctx.src(FCONV)
     ga = fcv.func("get_alignment")
     gat = ast.unparse(ga)
+    # get_alignment: additional gap characters are mapped onto the gap character; it is removed before the sequences are built
+    repl = [c for c in ast.walk(ga) if isinstance(c, ast.Call) and isinstance(c.func, ast.Attribute) and c.func.attr == "replace" and len(c.args) == 2]
+    maps_to_gap = any(isinstance(c.args[0], ast.Name) and isinstance(c.args[1], ast.Constant) and c.args[1].value == "-" for c in repl)
+    strips_gap = any(isinstance(c.args[0], ast.Constant) and c.args[0].value == "-" and isinstance(c.args[1], ast.Constant) and c.args[1].value == "" for c in repl)
     ctx.ob("R4.gap-character", ALN, "Alignment._gapped_str", f"written {gchar_w} / parsed {gchar_r}",
-           gchar_w == gchar_r == ["-"] and "seq_str.replace('-', '')" in gat and "seq_strings[i] = seq_str.replace(char, '-')" in gat,
+           gchar_w == gchar_r == ["-"] and maps_to_gap and strips_gap,
            "the gap character written into gapped strings must be the one the parsers treat as gap", gs.lineno)
+    # trace_from_strings: gap -> -1 (stored explicitly or left from the -1 initialisation), symbol -> running index of its sequence
+    init_minus1 = any(isinstance(c, ast.Call) and call_name(c) == "np.full" and len(c.args) >= 2 and same_expr(c.args[1], "-1") for c in ast.walk(ts))
+    gap_store = any(isinstance(st, ast.Assign) and isinstance(st.targets[0], ast.Subscript) and ast.unparse(st.targets[0].value) == "trace"
+                    and same_expr(st.value, "-1") for st in ast.walk(ts))
+    counted = False
+    for st in ast.walk(ts):
+        if isinstance(st, ast.Assign) and isinstance(st.targets[0], ast.Subscript) and ast.unparse(st.targets[0].value) == "trace" \
+                and isinstance(st.value, ast.Subscript) and isinstance(st.value.value, ast.Name) and isinstance(st.targets[0].slice, ast.Tuple):
+            cnt, seqvar = st.value.value.id, ast.unparse(st.targets[0].slice.elts[1])
+            if ast.unparse(st.value.slice) != seqvar:
+                continue
+            counted = any(isinstance(a, ast.AugAssign) and isinstance(a.op, ast.Add) and same_expr(a.value, "1")
+                          and ast.unparse(a.target) == f"{cnt}[{seqvar}]" for a in ast.walk(ts))
+    # _gapped_str: position -1 is the gap, everything else a symbol
+    wtest = [n_ for n_ in ast.walk(gs) if isinstance(n_, ast.Compare) and len(n_.ops) == 1 and same_expr(n_.comparators[0], "-1")]
+    wok = bool(wtest) and all(isinstance(n_.ops[0], (ast.NotEq, ast.Eq)) for n_ in wtest)
     ctx.ob("R4.gap-is-minus-one", ALN, "Alignment.trace_from_strings", "gap -> -1, symbol -> running index",
-           ("trace[pos_i, str_j] = -1" in ast.unparse(ts) or contains_expr(ts, "np.full((len(seq_str_list[0]), len(seq_str_list)), -1, dtype=int)"))
-           and "trace[pos_i, str_j] = seq_i[str_j]" in ast.unparse(ts)
-           and "seq_i[str_j] += 1" in ast.unparse(ts) and "if j != -1:" in ast.unparse(gs),
+           (init_minus1 or gap_store) and counted and wok,
            "gaps are -1 in the trace, symbols count up per sequence", ts.lineno)
     sa = fcv.func("set_alignment")
+    # row i is stored under name i: the value stored under seq_names[k] is element k of the gapped strings
+    okn = False
+    for st in ast.walk(sa):
+        if isinstance(st, ast.Assign) and isinstance(st.targets[0], ast.Subscript) and ast.unparse(st.targets[0].value) == "fasta_file" \
+                and isinstance(st.targets[0].slice, ast.Subscript) and ast.unparse(st.targets[0].slice.value) == "seq_names":
+            k = ast.unparse(st.targets[0].slice.slice)
+            if same_expr(st.value, f"gapped_seq_strings[{k}]"):
+                okn = True
+            elif isinstance(st.value, ast.Name):
+                # for k, v in enumerate(gapped_seq_strings)
+                for lp in ast.walk(sa):
+                    if isinstance(lp, ast.For) and isinstance(lp.target, ast.Tuple) and len(lp.target.elts) == 2 \
+                            and ast.unparse(lp.target.elts[0]) == k and ast.unparse(lp.target.elts[1]) == st.value.id \
+                            and same_expr(lp.iter, "enumerate(gapped_seq_strings)"):
+                        okn = True
     ctx.ob("R4.fasta-names", FCONV, "set_alignment", "fasta_file[seq_names[i]] = gapped_seq_strings[i]",
-           "fasta_file[seq_names[i]] = gapped_seq_strings[i]" in ast.unparse(sa) and "alignment.get_gapped_sequences()" in ast.unparse(sa),
+           okn and contains_expr(sa, "alignment.get_gapped_sequences()"),
            "row i is written under name i", sa.lineno, nontrivial=False)
     gc = al.func("get_codes")
     ctx.ob("R4.codes-gap", ALN, "get_codes", "np.where(trace[:, i] != -1, code[trace[:, i]], -1)",
